@@ -1562,7 +1562,19 @@ func genC18(g *G, sc *Scenario, tier string) {
 		}
 	}
 	first := Op{K: "runFix", S: "job1"}
-	if g.P(0.35) {
+	inflight := func() {
+		// a write to a dependency (or link, or the main dataset) is in flight - stored, not yet committed - while a
+		// run of the job starts and ends
+		ds := g.Pick(endpoints)
+		var ents []Ent
+		for k := g.Range(1, 2); k > 0; k-- {
+			ents = append(ents, mk(ds, g.Pick(ids[ds])))
+		}
+		sc.Ops = append(sc.Ops, Op{K: "batch", DS: ds, Ents: ents, M: map[string]any{"runInside": "job1"}})
+	}
+	if g.P(0.2) {
+		inflight() // ... the job's very first run
+	} else if g.P(0.35) {
 		// a client writes to a dependency (or the main dataset) while the very first run - a full sync - is between two pages
 		ds := g.Pick(endpoints)
 		first.M = map[string]any{"midWrite": map[string]any{"at": g.Range(1, 2), "ds": ds, "ents": []Ent{mk(ds, g.Pick(ids[ds]))}}}
@@ -1579,6 +1591,13 @@ func genC18(g *G, sc *Scenario, tier string) {
 				ents = append(ents, mk(ds, g.Pick(ids[ds])))
 			}
 			sc.Ops = append(sc.Ops, Op{K: "batch", DS: ds, Ents: ents})
+		}
+		if g.P(0.15) {
+			// all earlier writes are run to the fixpoint first, then a write with a run inside it
+			sc.Ops = append(sc.Ops, Op{K: "runFix", S: "job1"})
+			inflight()
+			sc.Ops = append(sc.Ops, Op{K: "runFix", S: "job1"})
+			continue
 		}
 		spec := map[string]any{}
 		if g.P(0.25) {
